@@ -89,6 +89,7 @@ class Spec:
         self.sym_caps = True
         self.sym_counters = False       # counters independent symbolic values constrained by Inv (else built as sums)
         self.sym_history = False
+        self.reachable_modes = True     # user modes +O / +r only as default_user_modes gives them (they are not reachable otherwise)
         self.plain_chans = []           # channels whose attributes are concrete defaults: only existence, key and the actor's membership stay symbolic
         self.operators = []             # [(name, hash, mask|None)]
         self.cfg_users = []             # [(name, nick, hash|None, mask|None)]
@@ -152,7 +153,15 @@ class World:
         self.preconf = {c: self.B(f'preconf_{c}', sp.sym_preconf) for c in sp.chans}
         self.member = {(n, c): self.B(f'mem_{n}_{c}') for n in sp.nicks for c in sp.chans}
         self.rank = {(n, c, r): self.B(f'{r}_{n}_{c}', sp.sym_ranks) for n in sp.nicks for c in sp.chans for r in RANKS}
-        self.umode = {(n, m): self.B(f'umode_{m}_{n}', sp.sym_modes) for n in sp.nicks for m in UMODES}
+        dum0 = sp.default_user_modes or {}
+        def umode_var(n, m):
+            # +O and +r cannot be acquired through the protocol: they come from default_user_modes / configured users only
+            if m in ('local_oper', 'registered') and sp.reachable_modes:
+                return bool(dum0.get(m, False))
+            if m == 'oper' and sp.reachable_modes and not sp.operators:
+                return bool(dum0.get(m, False))
+            return self.B(f'umode_{m}_{n}', sp.sym_modes, bool(dum0.get(m, False)))
+        self.umode = {(n, m): umode_var(n, m) for n in sp.nicks for m in UMODES}
         self.away = {n: self.B(f'away_{n}', sp.sym_away) for n in sp.nicks}
         self.invited = {(n, c): self.B(f'inv_{n}_{c}', sp.sym_invites) for n in sp.nicks for c in sp.chans}
         self.flag = {(c, f): self.B(f'{f}_{c}', sp.sym_flags) for c in sp.chans for f in CHFLAGS}
@@ -221,7 +230,7 @@ class World:
         inv_count = bsum([_and(self.reg[n], self.umode[(n, 'invisible')]) for n in sp.nicks])
         op_count = bsum([_and(self.reg[n], _or(self.umode[(n, 'oper')], self.umode[(n, 'local_oper')])) for n in sp.nicks])
         nusers = bsum([self.reg[n] for n in sp.nicks])
-        if sp.sym_counters:
+        if sp.sym_counters and self.fixed is None:
             self.c_inv, self.c_op, self.c_max = self.W('cnt_invisible'), self.W('cnt_operators'), self.W('cnt_max_users')
             M.assume(self.c_inv == inv_count); M.assume(self.c_op == op_count)
             M.assume(z3.UGE(self.c_max, nusers if is_sym(nusers) else z3.BitVecVal(nusers, 64)))
